@@ -200,7 +200,7 @@ func c15r3(c *an.Ctx) {
 		n++
 		c.Analysed(fn)
 		// state: pending operation awaiting its twin: "", "rm:local", "rm:global", "ap:local", ...; "nolocal" when the per-key list is absent
-		flow := &an.Flow{Fn: fn, Init: []string{""},
+		flow := &an.Flow{Fn: fn, Inline: an.InlineSamePackage(fn), Init: []string{""},
 			Step: func(st string, in ssa.Instruction) []string {
 				ci, ok := in.(ssa.CallInstruction)
 				if !ok {
@@ -280,7 +280,7 @@ func c15r4(c *an.Ctx) {
 	// shared typestate over Take / Put / Close: per current entry
 	timerStop := "(*time.Timer).Stop"
 	ownerFlow := func(fn *ssa.Function) *an.FlowResult {
-		flow := &an.Flow{Fn: fn, Init: []string{""},
+		flow := &an.Flow{Fn: fn, Inline: an.InlineSamePackage(fn), Init: []string{""},
 			Step: func(st string, in ssa.Instruction) []string {
 				switch x := in.(type) {
 				case *ssa.Phi:
@@ -531,7 +531,7 @@ func mentionsNearby(b *ssa.BasicBlock, f *types.Var) bool {
 func c15r5(c *an.Ctx) {
 	pa := poolA(c)
 	put := c.Fn("drpcpool", "(*Pool).Put")
-	flow := &an.Flow{Fn: put, Init: []string{""},
+	flow := &an.Flow{Fn: put, Inline: an.InlineSamePackage(put), Init: []string{""},
 		Step: func(st string, in ssa.Instruction) []string {
 			switch x := in.(type) {
 			case *ssa.MapUpdate:
